@@ -8,6 +8,13 @@
 (* catalogue of pairwise different cells so that a selection is visible.   *)
 (*   scen = "build":    a = which optional arguments are passed            *)
 (*   scen = "rotate":   a = rotation [n, q] (second order only)            *)
+(*   scen = "rothom":   a = rotation; HOMOGENEOUS tensors (1 cell and 3    *)
+(*                      identical cells), one real tensor per entry of     *)
+(*                      HomSpecs: every diagonal tuple (isotropic,         *)
+(*                      kxx = kyy # kzz, kxx = kzz # kyy, ...), some full  *)
+(*                      tuples, and the argument patterns "kxx only" and   *)
+(*                      "kxx and kzz" (kyy defaulting to kxx) - whole-     *)
+(*                      array shortcuts of the code only fire on these     *)
 (*   scen = "restrict": a = sequence of distinct 0-based cell indices      *)
 (*   scen = "copy":     a = rotation applied before copying (signed        *)
 (*                      permutation: exact in floating point)              *)
@@ -38,13 +45,21 @@ Cat2 == <<<<1, 1, 1, 0, 0, 0>>, <<2, 3, 1, 1, 0, 0>>, <<3, 2, 2, 1, -1, 0>>, <<2
 Cells4 == {<<mu, la, phi>> : mu \in MuVals, la \in LaVals, phi \in PhiVals}
 Cat4 == <<<<1, 0, 2>>, <<2, 1, 0>>, <<1, 3, 1>>, <<3, 2, 3>>>>
 NCat == 4
+\* homogeneous tensors: <<parameter tuple, argument pattern, number of identical cells>>
+KxxOnly == <<TRUE, FALSE, FALSE, FALSE, FALSE, FALSE>>
+KxxKzz == <<TRUE, FALSE, TRUE, FALSE, FALSE, FALSE>>
+HomTuples == {<<p, AllGiven>> : p \in {<<xx, yy, zz, 0, 0, 0>> : xx \in Diag, yy \in Diag, zz \in Diag}}
+             \cup {<<Cat2[i], AllGiven>> : i \in 2..NCat}
+             \cup {<<<<xx, 0, 0, 0, 0, 0>>, KxxOnly>> : xx \in Diag}
+             \cup {<<<<xx, 0, zz, 0, 0, 0>>, KxxKzz>> : xx \in Diag, zz \in Diag}
+HomSpecs == {<<t[1], t[2], nc>> : t \in {u \in HomTuples : Admissible(u[1], u[2])}, nc \in {1, 3}}
 
 PermSub == IF PermMode = "all" THEN SignedPerms
            ELSE {P \in SignedPerms : P[1][1] = 1 \/ (P[1][2] = 1 /\ P[2][3] = 1) \/ (P[1][3] = -1 /\ P[2][2] = -1)}
 Rots == {[n |-> MMul(P, B.n), q |-> B.q] : P \in PermSub, B \in BaseRots}
 NoRot == [n |-> Ident(1), q |-> 1]
 CellSeqs == {s \in UNION {[1..l -> 0..(NCat - 1)] : l \in 1..NCat} : \A i, j \in 1..Len(s) : i # j => s[i] # s[j]}
-Scens == IF Kind = "second" THEN {"build", "rotate", "restrict", "copy"} ELSE {"build", "restrict", "copy"}
+Scens == IF Kind = "second" THEN {"build", "rotate", "rothom", "restrict", "copy"} ELSE {"build", "restrict", "copy"}
 
 VARIABLES st, scen, a, b
 vars == <<st, scen, a, b>>
@@ -53,6 +68,7 @@ Pick == /\ st = 0 /\ st' = 1 /\ scen' = scen
         /\ b' \in (IF Kind = "fourth" THEN BOOLEAN ELSE {FALSE})
         /\ CASE scen = "build"    -> a' \in (IF Kind = "second" THEN GivPatterns ELSE {<<>>})
              [] scen = "rotate"   -> a' \in Rots
+             [] scen = "rothom"   -> a' \in Rots
              [] scen = "restrict" -> a' \in CellSeqs
              [] scen = "copy"     -> a' \in (IF Kind = "second" THEN {[n |-> P, q |-> 1] : P \in PermSub} ELSE {NoRot})
 Eval == st = 1 /\ st' = 2 /\ UNCHANGED <<scen, a, b>>
@@ -60,17 +76,21 @@ Next == Pick \/ Eval
 Spec == Init /\ [][Next]_vars
 
 Cells == IF Kind = "second"
-         THEN (IF scen = "build" THEN (IF a = AllGiven THEN CellsAll ELSE Cells2(a)) ELSE IF scen = "rotate" THEN CellsAll ELSE Cat2)
+         THEN (IF scen = "build" THEN (IF a = AllGiven THEN CellsAll ELSE Cells2(a))
+               ELSE IF scen = "rotate" THEN CellsAll ELSE IF scen = "rothom" THEN {} ELSE Cat2)
          ELSE (IF scen = "build" THEN {c \in Cells4 : b \/ c[3] = 0} ELSE Cat4)
 Emit == st = 2 =>
   PrintT(ToJson([kind |-> Kind, scen |-> scen, cells |-> Cells, extra |-> b,
                  giv |-> IF Kind = "second" /\ scen = "build" THEN a ELSE AllGiven,
-                 rot |-> IF scen \in {"rotate", "copy"} THEN a ELSE NoRot,
+                 homs |-> IF scen = "rothom" THEN HomSpecs ELSE {},
+                 rot |-> IF scen \in {"rotate", "rothom", "copy"} THEN a ELSE NoRot,
                  sel |-> IF scen = "restrict" THEN a ELSE <<>>]))
 
 CellSet == IF scen \in {"restrict", "copy"} THEN {Cells[i] : i \in 1..NCat} ELSE Cells
 Laws == st = 2 =>
-  IF Kind = "second"
+  IF scen = "rothom"
+  THEN IsRotation(a.n, a.q) /\ \A h \in HomSpecs : LawInvariantsOf(Second(h[1], h[2]), a.n, a.q)
+  ELSE IF Kind = "second"
   THEN LET giv == IF scen = "build" THEN a ELSE AllGiven IN
        /\ \A p \in CellSet : Admissible(p, giv) /\ Sym3(Second(p, giv))
        /\ scen \in {"rotate", "copy"} =>
